@@ -18,6 +18,7 @@ EXPLANATION = (
     "exactly 2/3 values; (5) random draws happen only in the random()/randint() arms and loop parameters are evaluated once. "
     "Undecided: numeric results, list flattening semantics, and 'evaluated exactly once' for attribute values that are re-evaluated "
     "with fixed-point results."
+    " A17: 36 closed-form built-ins agree as terms with the reference algebra written from the documentation; every {{..}} block found is evaluated in that pass of the scan."
 )
 TRUSTED = ["IEEE-754 semantics of the f32 primitives named in the reference table"]
 ASSUMPTIONS = []
